@@ -346,6 +346,9 @@ class Interp:
                 return self.lib.list_concat(self, a, b)
             raise OutOfSubset(f'list {op}')
         if isinstance(a, (Vec, Arr)) or isinstance(b, (Vec, Arr)):
+            if op == '/' and self.lib.NPVEC[0] is not None:
+                # numpy array division: x/0 gives inf/nan with a warning, never an exception
+                return self.lib.elementwise2(self, self.lib.NPVEC[0].np_div, a, b)
             return self.lib.elementwise2(self, lambda x, y: self.scalar_binop(op, x, y), a, b)
         if isinstance(a, Opaque) or isinstance(b, Opaque):
             if op in ('+', '%'):
@@ -354,6 +357,9 @@ class Interp:
         return self.scalar_binop(op, a, b)
 
     def scalar_binop(self, op, a, b):
+        if op == '/' and self.cfg.extra.get('np_scalar_div') and self.lib.NPVEC[0] is not None:
+            # indicator mode: float division by a symbolic zero yields inf/nan (numpy scalars), not an exception
+            return self.lib.NPVEC[0].np_div(a, b)
         if op in ('/', '//', '%'):
             z = ops.equal(b, 0)
             if z is True:
@@ -971,10 +977,137 @@ class Interp:
 
     def s_If(self, st, fr):
         c = ops.truthy(self.eval(st.test, fr))
+        if not isinstance(c, bool) and self.cfg.extra.get('merge_ifs') and self._mergeable(st):
+            if self._merge_if(st, fr, c):
+                return
         if self.ctx.branch(c):
             self.exec_block(st.body, fr)
         else:
             self.exec_block(st.orelse, fr)
+
+    # ---- if-merging (indicator kernels: data-dependent branches inside long loops) -------------------------
+    PURE_CALLS = {'abs', 'min', 'max', 'float', 'int', 'np.isnan', 'np.abs', 'np.fabs', 'math.isnan', 'np.sqrt', 'math.sqrt',
+                  'np.maximum', 'np.minimum', 'math.fabs', 'np.log', 'np.exp', 'math.log', 'math.exp', 'len', 'round'}
+
+    def _mergeable(self, st):
+        cache = self.__dict__.setdefault('_merge_cache', {})
+        k = id(st)
+        if k not in cache:
+            cache[k] = self._simple_block(st.body) and self._simple_block(st.orelse)
+        return cache[k]
+
+    def _simple_block(self, stmts):
+        for s in stmts:
+            if isinstance(s, ast.Pass):
+                continue
+            if isinstance(s, ast.If):
+                if not (self._simple_expr(s.test) and self._simple_block(s.body) and self._simple_block(s.orelse)):
+                    return False
+                continue
+            if isinstance(s, (ast.Assign, ast.AugAssign)):
+                targets = s.targets if isinstance(s, ast.Assign) else [s.target]
+                for t in targets:
+                    if isinstance(t, ast.Name):
+                        continue
+                    if isinstance(t, ast.Subscript) and isinstance(t.value, ast.Name) and self._simple_expr(t.slice):
+                        continue
+                    return False
+                if not self._simple_expr(s.value):
+                    return False
+                continue
+            return False
+        return True
+
+    def _simple_expr(self, e):
+        for n in ast.walk(e):
+            if isinstance(n, ast.Call):
+                nm = self._static_name(n.func)
+                if nm not in self.PURE_CALLS:
+                    return False
+            elif isinstance(n, (ast.Lambda, ast.ListComp, ast.GeneratorExp, ast.DictComp, ast.SetComp, ast.Await, ast.Yield,
+                                ast.NamedExpr)):
+                return False
+        return True
+
+    def _touched(self, stmts, names, arrays):
+        for s in stmts:
+            if isinstance(s, ast.If):
+                self._touched(s.body, names, arrays)
+                self._touched(s.orelse, names, arrays)
+            elif isinstance(s, (ast.Assign, ast.AugAssign)):
+                for t in (s.targets if isinstance(s, ast.Assign) else [s.target]):
+                    if isinstance(t, ast.Name):
+                        names.add(t.id)
+                    else:
+                        arrays.add(t.value.id)
+
+    def _merge_if(self, st, fr, c):
+        names, arrays = set(), set()
+        self._touched(st.body, names, arrays)
+        self._touched(st.orelse, names, arrays)
+        # arrays written in a branch must be local, concrete-length vectors that nothing else aliases
+        vecs = {}
+        for a in arrays:
+            v = fr.l.get(a)
+            if not isinstance(v, Vec) or v.view:
+                return False
+            vecs[a] = v
+        ids = [id(v) for v in fr.l.values() if isinstance(v, Vec)]
+        if any(ids.count(id(v)) > 1 for v in vecs.values()):
+            return False
+        before = {n: fr.l[n] for n in names if n in fr.l}
+        saved = {a: list(v.e) for a, v in vecs.items()}
+
+        def run(block, cond):
+            for a, v in vecs.items():
+                v.e = list(saved[a])
+            for n in names:
+                if n in before:
+                    fr.l[n] = before[n]
+                else:
+                    fr.l.pop(n, None)
+            self.ctx.pure += 1
+            self.ctx.merge = getattr(self.ctx, 'merge', 0) + 1
+            self.ctx.s.push()
+            self.ctx.s.add(cond)          # side conditions inside the branch (division by zero ...) are decided under its guard
+            try:
+                self.exec_block(block, fr)
+            finally:
+                self.ctx.s.pop()
+                self.ctx.pure -= 1
+                self.ctx.merge -= 1
+            return {n: fr.l.get(n, _UNBOUND) for n in names}, {a: list(v.e) for a, v in vecs.items()}
+        try:
+            va, aa = run(st.body, z3bool(c))
+            vb, ab = run(st.orelse, z3.Not(z3bool(c)))
+            merged = {}
+            for n in names:
+                x, y = va[n], vb[n]
+                if x is _UNBOUND or y is _UNBOUND:
+                    if x is y:
+                        continue
+                    # a branch-local temporary: it keeps the value of the branch that defines it (reading it after the
+                    # other branch would be a NameError in Python)
+                    merged[n] = y if x is _UNBOUND else x
+                    continue
+                merged[n] = x if x is y else ops.ite(c.t, x, y)
+            marr = {}
+            for a in vecs:
+                marr[a] = [x if x is y else ops.ite(c.t, x, y) for x, y in zip(aa[a], ab[a])]
+        except (NotPure, ops.NotMergeable, RaiseSignal, OutOfSubset):
+            for a, v in vecs.items():
+                v.e = list(saved[a])
+            for n in names:
+                if n in before:
+                    fr.l[n] = before[n]
+                else:
+                    fr.l.pop(n, None)
+            return False
+        for n, v in merged.items():
+            fr.l[n] = v
+        for a, v in vecs.items():
+            v.e = marr[a]
+        return True
 
     def s_Assign(self, st, fr):
         v = self.eval(st.value, fr)
@@ -1373,6 +1506,9 @@ class Interp:
             raise PathEnd()
         ctx.assume(ops.lnot(cond))
         self.exec_block(st.orelse, fr)
+
+
+_UNBOUND = object()
 
 
 class _ChainFrame(Frame):
